@@ -879,6 +879,11 @@ func serve(st srvStream, first string, hasFirst bool) (string, error) {
 			// request-metadata phase: answer with the user metadata the handler sees as incoming
 			md, _ := metadata.FromIncomingContext(ctx)
 			seen := "incoming:" + normMD(md)
+			if hasFirst && strings.Contains(first, "+h") {
+				// this call also answers with a header and a trailer of its own (through the call context for unary calls)
+				_ = st.SetHeader(metadata.Pairs("x-echo-h", first))
+				st.SetTrailer(metadata.Pairs("x-echo-t", first))
+			}
 			if _, isUnary := st.(unarySrv); isUnary {
 				return seen, nil
 			}
